@@ -221,7 +221,8 @@ def random_part(ctx, res, lib):
         kind = "matrix" if (equal_len and rng.random() < 0.5) else rng.choice(["list", "list_views"])
         data = container(series, ndim, kind)
         settings = {"window": rng.choice([None, 1, 2, 3]), "penalty": rng.choice([None, 1]),
-                    "psi": rng.choice([None, 1, (1, 0, 0, 1), (0, 1, 1, 0), (2, 0, 0, 0), (0, 0, 0, 2)]), "inner": "sq"}
+                    "psi": rng.choice([None, 1, (1, 0, 0, 1), (0, 1, 1, 0), (2, 0, 0, 0), (0, 0, 0, 2)]), "inner": "sq",
+                    "max_length_diff": rng.choice([None, None, 1, 2])}
         if settings["psi"]:
             # per-series psi entries (asymmetric tuples) must be admissible for every ordered pair
             ok = True
@@ -244,12 +245,16 @@ def random_part(ctx, res, lib):
         res.evaluations += 1
         res.nontrivial.add(repr((n, b, tuple(map(tuple, series)))))
         got = {}
-        for eng, use_c in (("python", False), ("c", True)):
+        for eng, use_c in (("python", False), ("c", True), ("c_fast_wrapper", "fast")):
             try:
                 ctx.crumb(call="%s.distance_matrix(compact=True, parallel=False)" % mod.__name__, engine=eng, block=b,
                           ndim=ndim, container=kind, series=series, settings=settings)
-                got[eng] = list(mod.distance_matrix(data, block=block_arg(b), compact=True, parallel=False,
-                                                    use_c=use_c, **extra, **kw))
+                if use_c == "fast":
+                    got[eng] = list(mod.distance_matrix_fast(data, block=block_arg(b), compact=True, parallel=False,
+                                                             **extra, **kw))
+                else:
+                    got[eng] = list(mod.distance_matrix(data, block=block_arg(b), compact=True, parallel=False,
+                                                        use_c=use_c, **extra, **kw))
             except BaseException as e:
                 if isinstance(e, (KeyboardInterrupt, SystemExit)):
                     raise
@@ -257,7 +262,7 @@ def random_part(ctx, res, lib):
                                        "got": impl.exc_name(e) + ": " + str(e)[:100], "settings": settings})
                 got[eng] = None
         single = [impl.py_distance(pair_case(series, ndim, r, c, settings), "numpy") for r, c in pairs]
-        for eng in ("python", "c"):
+        for eng in ("python", "c", "c_fast_wrapper"):
             if got[eng] is None:
                 continue
             g = [impl.canon(x) for x in got[eng]]
